@@ -239,3 +239,101 @@ Proof.
          (fun Hw Hn Hrun Hout => run_inside_stable H zh evs st k x m y Hw Hx Hn Hrun Hy Hout)).
 Qed.
 Print Assumptions C05_copy_detached.
+
+(* ---------------- 4. the heap machine HM refines the tree machine TM ---------------- *)
+(* HM = [hm_step] (this file, C06, C07, C14); TM = [tm_step], the same view machine of Mut.v over
+   pure trees (C04).  [abs_rel zh hs ts] (top of RefineProofs.v, unfolded in C05_defs_refine):
+   the heap of hs is well formed and holds the zero leaves and trueRoot; the handle lists have
+   the same length; handle k has the same type and hook on both sides and the pure backing of
+   ts is the content [habs] of the backing address of hs. *)
+From Ztyp Require Import RefineProofs.
+
+Theorem C05_defs_refine : forall zh hs ts o os e evs,
+  (abs_rel zh hs ts <->
+     heap_wf (m_store _ _ hs) /\ zeros_ok zh (m_store _ _ hs) /\
+     h_cell (m_store _ _ hs) true_addr = Some (CLeaf true_chunk) /\
+     length (m_handles _ _ hs) = length (m_handles _ _ ts) /\
+     forall k x y, nth_error (m_handles _ _ hs) k = Some x -> nth_error (m_handles _ _ ts) k = Some y ->
+       h_ty _ x = h_ty _ y /\ h_hook _ x = h_hook _ y /\
+       habs (m_store _ _ hs) (h_back _ x) (h_back _ y)) /\
+  hm_ops_run zh hs os = fold_left (fun st o => fst (hm_step zh st o)) os hs /\
+  MutProofs.tm_run zh ts os = fold_left (fun st o => fst (tm_step zh st o)) os ts /\
+  hm_trace zh hs [] = [] /\
+  hm_trace zh hs (o :: os) = snd (hm_step zh hs o) :: hm_trace zh (fst (hm_step zh hs o)) os /\
+  MutProofs.tm_trace zh ts [] = [] /\
+  MutProofs.tm_trace zh ts (o :: os) =
+    snd (tm_step zh ts o) :: MutProofs.tm_trace zh (fst (tm_step zh ts o)) os /\
+  ev_ops [] = [] /\
+  ev_ops (e :: evs) = match e with EStep o => o :: ev_ops evs | EHash _ => ev_ops evs end.
+Proof.
+  exact (fun zh hs ts o os e evs =>
+    conj (iff_refl _) (conj eq_refl (conj eq_refl (conj eq_refl (conj eq_refl (conj eq_refl
+      (conj eq_refl (conj eq_refl
+        (match e as e0 return ev_ops (e0 :: evs) =
+                 match e0 with EStep o => o :: ev_ops evs | EHash _ => ev_ops evs end
+         with EStep _ => eq_refl | EHash _ => eq_refl end))))))))).
+Qed.
+Print Assumptions C05_defs_refine.
+
+(* abs_rel contains the machine invariant hm_inv, and holds initially: allocating a pure tree
+   into the initial heap gives an address whose content is that tree *)
+Theorem C05_refines_inv : forall zh hs ts, abs_rel zh hs ts -> hm_inv zh hs.
+Proof. exact abs_rel_hm_inv. Qed.
+Print Assumptions C05_refines_inv.
+
+Theorem C05_refines_init : forall zh t n,
+  let '(a, h) := hm_alloc (heap_init zh) n in
+  abs_rel zh (mkM _ _ h [mkH _ t a None]) (tm_init t n).
+Proof. exact refine_init. Qed.
+Print Assumptions C05_refines_init.
+
+(* every step of HM is the same step of TM: every operation (OGet, OUValue, OCopy, OSet, OAppend,
+   OPop, OChange), every source (literal, handle, none), succeeding or failing: same output —
+   same new handle number, same Err / Panic classification — and related states *)
+Theorem C05_heap_machine_refines_tree_machine : forall zh hs ts o,
+  abs_rel zh hs ts ->
+  let '(hs', rh) := hm_step zh hs o in
+  let '(ts', rt) := tm_step zh ts o in
+  abs_rel zh hs' ts' /\ rh = rt.
+Proof. exact refine_step. Qed.
+Print Assumptions C05_heap_machine_refines_tree_machine.
+
+(* histories of operations: equal traces, related final states *)
+Theorem C05_refines_history : forall zh os hs ts,
+  abs_rel zh hs ts ->
+  abs_rel zh (hm_ops_run zh hs os) (MutProofs.tm_run zh ts os) /\
+  hm_trace zh hs os = MutProofs.tm_trace zh ts os.
+Proof. exact refine_history. Qed.
+Print Assumptions C05_refines_history.
+
+(* histories with interleaved hash-tree-root requests: the requests only write memos, which the
+   abstraction does not see; TM replays the operations alone *)
+Theorem C05_refines_events : forall zh H evs hs ts,
+  abs_rel zh hs ts ->
+  abs_rel zh (hm_run H zh hs evs) (MutProofs.tm_run zh ts (ev_ops evs)).
+Proof. exact refine_events. Qed.
+Print Assumptions C05_refines_events.
+
+(* the hash-tree-root observed on HM is the root of the TM backing (any fuel >= the address);
+   the request keeps memo_ok and the relation *)
+Theorem C05_refined_root : forall zh H hs ts k x y fuel,
+  abs_rel zh hs ts -> memo_ok H (m_store _ _ hs) ->
+  nth_error (m_handles _ _ hs) k = Some x -> nth_error (m_handles _ _ ts) k = Some y ->
+  (Pos.to_nat (h_back _ x) <= fuel)%nat ->
+  exists h' c,
+    h_merkle H fuel (m_store _ _ hs) (h_back _ x) = OK (root_of H (h_back _ y), h', c) /\
+    memo_ok H h' /\ abs_rel zh (mkM _ _ h' (m_handles _ _ hs)) ts.
+Proof. exact refined_root. Qed.
+Print Assumptions C05_refined_root.
+
+(* hence, after ANY history of operations and hash requests from related states *)
+Theorem C05_refined_history_root : forall zh H evs hs ts k x y fuel,
+  abs_rel zh hs ts -> memo_ok H (m_store _ _ hs) ->
+  nth_error (m_handles _ _ (hm_run H zh hs evs)) k = Some x ->
+  nth_error (m_handles _ _ (MutProofs.tm_run zh ts (ev_ops evs))) k = Some y ->
+  (Pos.to_nat (h_back _ x) <= fuel)%nat ->
+  exists h' c,
+    h_merkle H fuel (m_store _ _ (hm_run H zh hs evs)) (h_back _ x) =
+      OK (root_of H (h_back _ y), h', c).
+Proof. exact refined_history_root. Qed.
+Print Assumptions C05_refined_history_root.
